@@ -1691,6 +1691,9 @@ class ThroughputCalculator:
                 start_time=first_sample.absolute_time - first_sample.time_period,
             )
         current = self.task_stats[task]
+        # `current_samples` already contains all samples that were left unprocessed by the previous invocation. Start
+        # with an empty list, otherwise they would be added (and later counted) once more.
+        current.unprocessed = []
         count = current.total_count
         last_sample = None
         for sample in current_samples:
